@@ -481,6 +481,9 @@ type c20Case struct {
 	RPC   int
 	Muts  []int
 	Label string
+	// Ctx: "" = a caller that waits for its answer; "given-up" = the caller has gone away when the request is handled;
+	// "expired" = the deadline the caller sent along (grpc-timeout) has passed.
+	Ctx string
 }
 
 // c20Cases builds the deterministic case list (identical in parent and worker).
@@ -591,6 +594,8 @@ func c20Cases(tier string) ([]c20Case, []c20RPC, [][]c20Mut) {
 		}
 		mutsPer = append(mutsPer, ms)
 		all = append(all, c20Case{RPC: ri, Label: r.Name + ": default"})
+		all = append(all, c20Case{RPC: ri, Label: r.Name + ": default, from a caller that has gone away", Ctx: "given-up"},
+			c20Case{RPC: ri, Label: r.Name + ": default, with a deadline that has passed", Ctx: "expired"})
 		for mi, m := range ms {
 			all = append(all, c20Case{RPC: ri, Muts: []int{mi}, Label: m.Desc})
 		}
@@ -671,6 +676,16 @@ func c20Worker(tier string, from int) int {
 		ctx := clientCtx
 		if r.AsPeer {
 			ctx = peerCtx
+		}
+		switch cs.Ctx {
+		case "given-up":
+			c2, cancel := context.WithCancel(ctx)
+			cancel()
+			ctx = c2
+		case "expired":
+			c2, cancel := context.WithDeadline(ctx, time.Now().Add(-time.Second))
+			defer cancel()
+			ctx = c2
 		}
 		done := make(chan error, 1)
 		go func() { done <- r.Call(s, ctx, in) }()
